@@ -10,6 +10,12 @@ W="/tmp/seed_$id"; O="$W/out/$x"; V="$(cd "$(dirname "$0")/.." && pwd)"
 D="$V/seeded/$ID-$x"; mkdir -p "$D"
 cd "$W" || exit 2
 git checkout -q -- . ; git clean -fdq -e out
+# bring the worktree to /repo's current HEAD (later "fix:" commits) when the patch still applies there
+orig=$(git rev-parse HEAD); cur=$(git -C /repo rev-parse HEAD)
+if [ "$orig" != "$cur" ]; then
+  git checkout -q --detach "$cur" 2>/dev/null
+  if ! git apply --check "$O/patch.diff" 2>/dev/null; then echo "patch does not apply at $cur, staying at $orig"; git checkout -q --detach "$orig"; fi
+fi
 cp "$O/demo.rs" "examples/seed_demo_$x.rs"
 echo "== demo without change"; cargo run -q --offline --release --example "seed_demo_$x" > "$D/demo_without.log" 2>&1; d0=$?
 git apply "$O/patch.diff" || { echo "patch does not apply"; exit 2; }
